@@ -72,7 +72,8 @@ def do_replay(path):
 
 def main(argv=None):
     ap = argparse.ArgumentParser()
-    ap.add_argument("prop")
+    ap.add_argument("prop", nargs="?")
+    ap.add_argument("--relock", action="store_true")
     ap.add_argument("--tier", default=os.environ.get("VERIF_TIER", "quick"), choices=["quick", "thorough"])
     ap.add_argument("--replay")
     ap.add_argument("--only-bounded", action="store_true")
@@ -82,6 +83,10 @@ def main(argv=None):
     a = ap.parse_args(argv)
     if a.replay:
         return do_replay(a.replay)
+    if a.relock:
+        from .qvc import driver
+        print("locked obligations:", driver.relock())
+        return 0
     prop = a.prop
     if prop not in PROPERTIES:
         print("unknown property", prop)
